@@ -106,7 +106,9 @@ fn reply_is_end(r: &Reply) -> bool {
 /// Builds a compliant client script of 1..k requests with position-independent noise after the
 /// preamble and phase-specific noise where the consuming parser is known.
 pub fn gen_plan(cx: &mut Ctx, o: &PlanOpts) -> Plan {
-    let k = if o.max_reqs > 4 { cx.probe("long_lived_connection"); cx.ch.range(5, o.max_reqs) } else { 1 + cx.ch.weighted(&[3, 3, 2, 1]).min(o.max_reqs - 1) };
+    // max_reqs >= 100: a very long keep-alive connection of small requests (per-connection counters, ids, buffers that creep)
+    let tiny = o.max_reqs >= 100;
+    let k = if tiny { cx.probe("connection_of_260plus_requests"); cx.ch.range(260, o.max_reqs) } else if o.max_reqs > 4 { cx.probe("long_lived_connection"); cx.ch.range(5, o.max_reqs) } else { 1 + cx.ch.weighted(&[3, 3, 2, 1]).min(o.max_reqs - 1) };
     let max_conns = cx.ch.one_of(&[1usize, 2, 10, 100]);
     // buffer size first: the 24-byte minimum needs pairs of at most 11 bytes
     let bufsize = if o.small_buf_bias {
@@ -125,10 +127,10 @@ pub fn gen_plan(cx: &mut Ctx, o: &PlanOpts) -> Plan {
         let keep = if last { o.force_keep || cx.ch.chance(1, 2) } else { true };
         let mut flags = if cx.ch.chance(1, 3) { cx.ch.byte() & 0xfe } else { 0 };
         if keep { flags |= 1; }
-        let pairs = gen_pairs(cx, 4, pair_cap, false);
+        let pairs = gen_pairs(cx, if tiny { 1 } else { 4 }, pair_cap, false);
         let start = all.len();
         let mut recs = Vec::new();
-        let noise = if o.closed_loop { o.noise } else { o.noise };
+        let noise = if tiny { if cx.ch.chance(1, 20) { 1 } else { 0 } } else { o.noise };
         if o.abort && cx.ch.chance(1, 3) {
             // an attempt aborted during its Params stream: answered at once, no handler invocation
             let aid = if cx.ch.chance(1, 2) { id } else { gen_id(cx) };
@@ -1411,7 +1413,7 @@ pub const F_FLUSH: &[&str] = &["flush_pending", "spurious_child_poll"];
 pub const F_SPURIOUS: &[&str] = &["spurious_poll"];
 pub const F_INJECT: &[&str] = &["read_error", "eof_injected", "write_error", "zero_write", "flush_error"];
 pub const P_BASE: &[&str] = &["buffer_holds_whole_huge_record", "read_filled_buffer", "write_cut_in_header", "write_cut_at_seam", "write_cut_in_padding", "requests_2plus", "buffer_24", "fresh_waker_per_poll", "vectored_write_first_slice_only"];
-pub const P_C07: &[&str] = &["read_abandoned_while_pending", "keep_conn_reuse", "no_keep_conn_close", "handler_left_input_unread", "long_lived_connection"];
+pub const P_C07: &[&str] = &["read_abandoned_while_pending", "keep_conn_reuse", "no_keep_conn_close", "handler_left_input_unread", "long_lived_connection", "connection_of_260plus_requests"];
 #[allow(dead_code)]
 pub const D2_FAULTS: &[&str] = &[
     "short_read", "read_pending_nodata", "read_pending_withdata", "short_write", "write_pending", "spurious_poll",
@@ -1486,7 +1488,7 @@ pub fn c07(cx: &mut Ctx) -> VResult {
     cx.declare(F_TRANSPORT, P_BASE);
     cx.declare(F_SPURIOUS, P_C07);
     // one run in 16 is a long-lived keep-alive connection (5..12 requests): state carried from request to request
-    let max_reqs = if cx.ch.chance(1, 16) { 12 } else { 4 };
+    let max_reqs = if cx.ch.chance(1, 16) { 12 } else if cx.ch.chance(1, 120) { 300 } else { 4 };
     let o = PlanOpts { max_reqs, noise: cx.ch.pick(4), closed_loop: false, abort: false, small_buf_bias: cx.ch.chance(1, 2), force_keep: false, either_noise: false, pipelined: false, burst: false };
     let plan = gen_plan(cx, &o);
     note_plan(cx, &plan);
